@@ -1126,7 +1126,7 @@ int main(int argc, char** argv) {
     if (run.replaying()) return replay_main();
     const bool T = run.thorough();
     const std::vector<uint64_t> LIM = {5, 6, 7, 8}, LIMF = {5, 6, 7, 8, 12, 20};
-    const std::vector<int> ALLCFG = {0, 1, 2, 3, 4, 5, 6};
+    const std::vector<int> ALLCFG = {0, 1, 2, 3, 4, 5, 6}, QCFG = {0, 3, 4, 5};  // quick: one power-of-ten grid at scale 1, the default units, and the two configurations with unit^2 > precision
     run.note("sample points ((i+1/3)/r, (j+1/7)/r), r=2 for lattice shapes and r=1 for families; guard band 3*precision around every edge of the original and (fracture, writer) of every piece / "
              "(slice) every cut line; all predicates in int128");
 
@@ -1138,8 +1138,8 @@ int main(int argc, char** argv) {
     run.note(fmt("alphabet: %zu lattice members (g=3, n=5..7, start-fixed, both orientations, collinear allowed, + one repeated-vertex version each); %zu family members", lat36.size(), fam.size()));
     run_search(FRACTURE, "fracture", "g=3 n=5..7 (+1 repeated-vertex version each) x max_points {5,6,7,8} x 3 precisions, + limits {0..4}", lat36, 8, LIM, 3, {}, 5);
     run_search(FRACTURE, "fracture", "families (small parameters) x 4 orientations x max_points {5,6,7,8,12,20} x 3 precisions, + limits {0..4}", fam, 1, LIMF, 0, {}, 10);
-    run_search(WRITER, "writer", "g=3 n=5..7 (+dup) x write_gds max_points {5,6,7,8,0,4} x 7 unit/precision/scale configurations x 2 writers", lat36, 64, LIM, 3, ALLCFG, 10);
-    run_search(WRITER, "writer", "families (small parameters) x write_gds max_points {5,6,7,8,12,20,0,4} x 7 configurations x 2 writers", fam, 4, LIMF, 0, ALLCFG, 10);
+    run_search(WRITER, "writer", "g=3 n=5..7 (+dup) x write_gds max_points {5,6,7,8,0,4} x 4 unit/precision/scale configurations (0,3,4,5) x 2 writers", lat36, 64, LIM, 3, QCFG, 10);
+    run_search(WRITER, "writer", "families (small parameters) x write_gds max_points {5,6,7,8,12,20,0,4} x 4 configurations (0,3,4,5) x 2 writers", fam, 4, LIMF, 0, QCFG, 10);
     {
         // sort-fallback family (see namespace aq).  variant = transposed | mirrored<<1 | arrangement<<2
         std::vector<Shape> aqs, aqw;
@@ -1167,6 +1167,7 @@ int main(int argc, char** argv) {
     run_search(SLICE, "slice", "families (small parameters) x 2 orientations x sorted lists of <=3 positions around min/mid/max x 2 axes", famslice, 1, {}, 0, {}, 15);
 
     if (T) {
+        run_search(WRITER, "writer", "g=3 n=5..7 (+dup) x write_gds max_points {5,6,7,8,0,4} x remaining configurations (1,2,6) x 2 writers", lat36, 64, LIM, 3, {1, 2, 6}, 10);
         // ---- stage 2: full families
         std::vector<Shape> famT, famTslice;
         build_families(famT, true, {0, 1, 2, 3});
